@@ -333,6 +333,48 @@ def x6_listen(F, R, listen_field):
             R.check(bad is None, 'X6', '%s:insert-guard' % b['id'], site(sg, c), 'port inserted unless already in the listening set (no other condition)',
                     'listen() does not make the port listening whenever it is not yet in the listening set: %s; a request to that port is then reset instead of accepted' % bad)
     R.count('listen_inserts', n)
+    # unlisten keeps exactly the ports that differ from the argument: the predicate handed to retain on the listening set is
+    # folded (keep(p) iff p != port)
+    for b in F.bodies.values():
+        if b.get('impl_adt') != MGR or 'impl_trait' in b or b['kind'] != 'AssocFn' or not F.handwritten(b) or not b.get('pub'):
+            continue
+        sg = supergraph(F, b['id'], tag='flat', max_depth=0)
+        S = sg.sym
+        for c in sg.calls(lambda d: d.get('fn', '').startswith('alloc::vec::Vec::') and d['fn'].rsplit('::', 1)[1] in ('retain', 'retain_mut')):
+            recv = S.operand(c.id, c.d['args'][0])
+            if not any(x[0] == 'loc' and any(pp[0] == 'f' and pp[1] == listen_field and pp[2] == MGR for pp in x[2]) for x in deep_subterms(S, recv)):
+                continue
+            clo = strip_conv(S.operand(c.id, c.d['args'][1]))
+            cid = clo[1][len('closure:'):] if clo[0] == 'agg' and clo[1].startswith('closure:') else None
+            cb = F.bodies.get(cid) if cid else None
+            if cb is None:
+                R.abstain('X6', '%s:unlisten-predicate' % b['id'], 'retain predicate is not a closure of this function', site(sg, c))
+                continue
+            paths = [p for p in PathEnum(supergraph(F, cid)).run() if not p.panicked]
+            bad = None
+            for item, port in ((5, 5), (5, 6), (6, 5), (0, 0), (0, 0xffffffff)):
+                def leaf(t, item=item, port=port):
+                    # the closure's argument is the element, its captured variable the port
+                    if any(x == ('param', 2) for x in subterms(t)):
+                        return item
+                    if any(x == ('param', 1) for x in subterms(t)):
+                        return port
+                    raise Unfoldable(fmt(t)[:60])
+                fo = Folder(leaf)
+                try:
+                    hit = [p for p in paths if path_holds(fo, p)]
+                    got = fo.ev(hit[0].ret) if len(hit) == 1 else None
+                except Unfoldable as e:
+                    got = None
+                if got is None:
+                    R.abstain('X6', '%s:unlisten-predicate' % b['id'], 'cannot fold the retain predicate', site(sg, c))
+                    bad = 'abstain'
+                    break
+                if bool(got) != (item != port):
+                    bad = 'port %d is %s when port %d is unlistened' % (item, 'kept' if got else 'removed', port)
+                    break
+            if bad != 'abstain':
+                R.check(bad is None, 'X6', '%s:unlisten-predicate' % b['id'], site(sg, c), 'unlisten keeps exactly the other ports', 'unlisten: %s' % bad)
 
 
 def x7_shutdown_flag(F, R):
